@@ -17,8 +17,19 @@ Definition max_depth : Z := gen.WalkConsts.max_depth.
 Definition path_max : nat := 4096.
 
 (* ---------- file-system trees ---------- *)
-(* LinkFile/LinkDir/LinkNone are the three target kinds of a symbolic link: a regular file
-   with the given content, a directory with the given listing, nothing (dangling). *)
+(* A symbolic link is an entry with its RESOLVED target kind (what is found at the end of the
+   chain of links, however long, relative or absolute, inside or outside the scanned tree):
+   LinkFile/LinkDir/LinkNone: a regular file with the given content, a directory with the given
+   listing, nothing (dangling); LinkOther: one of the remaining kinds [okind].  A hard link is
+   just another Reg entry with the same content.  NoPerm is a regular file that the process may
+   stat but not open (no read permission, process not root). *)
+Inductive okind : Type :=
+| OFifo            (* the chain of links ends at a FIFO *)
+| OSock            (* at a socket *)
+| OChar            (* at a character device (/dev/null, /dev/zero) *)
+| OLoop            (* nowhere: the links form a loop, os.Stat fails with ELOOP *)
+| ONoPerm.         (* at a regular file without read permission *)
+
 Inductive node : Type :=
 | Reg (name content : bytes)
 | Dir (name : bytes) (children : list node)
@@ -26,24 +37,30 @@ Inductive node : Type :=
 | LinkDir (name : bytes) (children : list node)
 | LinkNone (name : bytes)
 | Fifo (name : bytes)
-| Sock (name : bytes).
+| Sock (name : bytes)
+| LinkOther (name : bytes) (target : okind)
+| NoPerm (name : bytes).
 
 Definition node_name (n : node) : bytes :=
   match n with
-  | Reg a _ | Dir a _ | LinkFile a _ | LinkDir a _ | LinkNone a | Fifo a | Sock a => a
+  | Reg a _ | Dir a _ | LinkFile a _ | LinkDir a _ | LinkNone a | Fifo a | Sock a
+  | LinkOther a _ | NoPerm a => a
   end.
 
 (* what os.Stat (which follows links) sees *)
 Inductive skind : Type :=
-| SReg (content : bytes) | SDir (children : list node) | SFifo | SSock | SMissing.
+| SReg (content : bytes) | SDir (children : list node) | SFifo | SSock | SMissing
+| SChar | SNoPerm.
 
 Definition stat (n : node) : skind :=
   match n with
   | Reg _ c | LinkFile _ c => SReg c
   | Dir _ ch | LinkDir _ ch => SDir ch
-  | LinkNone _ => SMissing
-  | Fifo _ => SFifo
-  | Sock _ => SSock
+  | LinkNone _ | LinkOther _ OLoop => SMissing
+  | Fifo _ | LinkOther _ OFifo => SFifo
+  | Sock _ | LinkOther _ OSock => SSock
+  | LinkOther _ OChar => SChar
+  | NoPerm _ | LinkOther _ ONoPerm => SNoPerm
   end.
 
 Definition too_long (p : bytes) : bool := Nat.leb path_max (length p).
@@ -172,9 +189,12 @@ Section Walk.
     match k with
     | SReg c => ([Report p c], None)                       (* open, Inspect, print *)
     | SFifo => ([], Some (Blocked p))                      (* os.Open blocks *)
-    | SSock | SMissing =>                                  (* os.Open fails: ENXIO / ENOENT / ENAMETOOLONG *)
+    | SSock | SMissing | SNoPerm =>                        (* os.Open fails: ENXIO / ENOENT / ENAMETOOLONG / EACCES *)
         if q_nil_after_open q then ([LogLine p], Some (Crashed p)) else ([LogLine p], None)
     | SDir _ => ([LogLine p; ReportEmpty p], None)         (* open succeeds, ReadAll fails with EISDIR *)
+    | SChar => ([ReportEmpty p], None)                     (* /dev/null: open succeeds, ReadAll returns no bytes, the
+                                                              Info with the path alone is printed (a device that
+                                                              delivers bytes is read up to the cap: not modelled) *)
     end.
 
   (* the else-branch of the loop in inspectDirectory: an entry whose DirEntry.IsDir() is false *)
@@ -182,7 +202,10 @@ Section Walk.
     if q_open_any q then inspect_file p k
     else match k with
          | SReg c => inspect_file p (SReg c)
-         | _ => ([LogLine p], None)                        (* os.Stat failed or not a regular file: skipped *)
+         | SNoPerm => inspect_file p SNoPerm               (* a regular file for os.Stat; os.Open fails *)
+         | _ => ([LogLine p], None)                        (* os.Stat failed or the RESOLVED target is not a regular
+                                                              file (FIFO, socket, device, directory behind a link,
+                                                              dangling link, loop): skipped, never opened *)
          end.
 
   (* inspectDirectory(p, rem) once the listing is known; [subs] are the sorted entries,
@@ -325,6 +348,53 @@ Section Main.
           else finish (main_loop fs recursive rest)
     end.
 End Main.
+
+(* ---------- reading a stream: internal/file/info.go:42-43 ----------
+   data, err := io.ReadAll(io.LimitReader(f, MaxReadSize))
+   A stream (a pipe, a socket, a terminal, a regular file) is the list of the byte strings that
+   the successive calls of f.Read return before the final (0, io.EOF): the chunks.  Where the
+   chunks end is decided by the writer's write calls and pauses, the pipe buffer and the room
+   ReadAll offers; a chunk may be empty (a Read that returns 0, nil: io.ReadAll goes on).
+   io.LimitedReader.Read returns io.EOF without reading once N bytes have been delivered, and
+   never asks for more than the remaining N (a longer chunk cannot be returned: what exceeds the
+   remainder stays in the stream).  io.ReadAll appends what each Read returns until io.EOF. *)
+Definition max_read_size : N := gen.WalkConsts.max_read_size.   (* info.go:28, regenerated *)
+
+Fixpoint take_n (n : N) (l : bytes) : bytes :=
+  match l with
+  | [] => []
+  | x :: r => if n =? 0 then [] else x :: take_n (n - 1) r
+  end.
+
+Fixpoint read_all (remaining : N) (chunks : list bytes) : bytes :=
+  match chunks with
+  | [] => []                                            (* f.Read: 0, io.EOF *)
+  | c :: rest =>
+      if remaining =? 0 then []                         (* LimitedReader: N <= 0 -> io.EOF *)
+      else let got := take_n remaining c in
+           got ++ read_all (remaining - N.of_nat (length got)) rest
+  end.
+
+(* main when standard input delivers the chunks: inspectStdin parses what Inspect has read *)
+Definition main_run_stream (q : quirks) (fs : list node) (argv : list bytes) (chunks : list bytes)
+    : list event * status :=
+  main_run q fs argv (read_all max_read_size chunks).
+
+(* NOT the code: a read loop that takes a Read which does not fill the room it was offered for
+   the end of the input (true for regular files, false for pipes).  Kept only for the
+   counter-example C10_stdin_short_read_refuted. *)
+Fixpoint read_until_short (room : nat) (chunks : list bytes) : bytes :=
+  match chunks with
+  | [] => []
+  | c :: rest => if Nat.ltb (length c) room then c else c ++ read_until_short room rest
+  end.
+
+(* the byte string cut into pieces of the given lengths (what is left over is the last piece) *)
+Fixpoint cut_at (lens : list nat) (data : bytes) : list bytes :=
+  match lens with
+  | [] => match data with [] => [] | _ => [data] end
+  | n :: rest => firstn n data :: cut_at rest (skipn n data)
+  end.
 
 (* ---------- what is written to standard output ---------- *)
 Section Out.
